@@ -61,7 +61,8 @@ Inductive colarg := CStr (s : string) | CFld (t : term).
 Inductive colitem := ColOne (c : colarg) | ColSeq (l : list colarg).
 
 (* how the builder is obtained: Q.into(t) | Q.update(t) | Q.from_(t).delete() *)
-Inductive start := SInto (t : tref) | SUpdate (t : tref) | SDelete (t : tref).
+Inductive start := SInto (t : tref) | SUpdate (t : tref) | SDelete (t : tref)
+                 | SBuilder.   (* Q._builder(): nothing chosen yet; into() / from_() / select() come as calls, in any order *)
 
 Inductive call :=
 | KColumns (args : list colitem)
@@ -71,7 +72,10 @@ Inductive call :=
 | KSet (f : colarg) (v : pyval)
 | KFromSelect (t : tref) (sels : list term)     (* .from_(t).select( *sels ), sels being Field / arithmetic / function terms *)
 | KWhere (c : term)
-| KLimit (n : Z).
+| KLimit (n : Z)
+| KInto (t : tref)                              (* .into(t) on a builder that has no INSERT target yet *)
+| KFrom (t : tref)                              (* .from_(t) *)
+| KSel (sels : list term).                   (* .select( *sels ) *)
 
 Record dstate := mkD {
   d_cls : cls;
@@ -94,8 +98,12 @@ Definition init (c : cls) (s : start) : dstate :=
   | SInto t => mkD c (Some t) None false [] [] [] [] false false [] None None
   | SUpdate t => mkD c None (Some t) false [] [] [] [] false false [] None None
   | SDelete t => mkD c None None true [t] [] [] [] false false [] None None
+  | SBuilder => mkD c None None false [] [] [] [] false false [] None None
   end.
 
+Definition set_into (s : dstate) (x : option tref) : dstate :=
+  mkD (d_cls s) x (d_update s) (d_delete s) (d_from s) (d_columns s) (d_values s) (d_updates s) (d_replace s) (d_ior s)
+      (d_selects s) (d_where s) (d_limit s).
 Definition set_columns (s : dstate) (x : list term) : dstate :=
   mkD (d_cls s) (d_into s) (d_update s) (d_delete s) (d_from s) x (d_values s) (d_updates s) (d_replace s) (d_ior s)
       (d_selects s) (d_where s) (d_limit s).
@@ -203,6 +211,16 @@ Definition step (cl : call) (st : dstate) : res dstate :=
   | KFromSelect t sels => Ok (set_from_selects st (d_from st ++ [t]) (d_selects st ++ sels))
   | KWhere c => Ok (set_where st (match d_where st with None => Some c | Some w => Some (TCplx BAnd w c None) end))
   | KLimit n => Ok (set_limit st (Some n))
+  | KInto t =>
+      match d_into st with
+      | Some _ => Err "AttributeError"
+      | None => match d_selects st with
+                | [] => Ok (set_into st (Some t))
+                | _ => Err "unmodelled"      (* _select_into: a SELECT ... INTO statement, not an INSERT *)
+                end
+      end
+  | KFrom t => Ok (set_from_selects st (d_from st ++ [t]) (d_selects st))
+  | KSel sels => Ok (set_from_selects st (d_from st) (d_selects st ++ sels))
   end.
 
 Fixpoint run_from (cs : list call) (st : dstate) : res dstate :=
@@ -320,9 +338,9 @@ Definition flag_step (acc : bool * bool) (cl : call) : bool * bool :=
 Definition flags_of_calls (cs : list call) : bool * bool := fold_left flag_step cs (false, false).
 Definition limit_step (acc : option Z) (cl : call) : option Z := match cl with KLimit n => Some n | _ => acc end.
 Definition froms_of_calls (cs : list call) : list tref :=
-  flat_map (fun cl => match cl with KFromSelect t _ => [t] | _ => [] end) cs.
+  flat_map (fun cl => match cl with KFromSelect t _ | KFrom t => [t] | _ => [] end) cs.
 Definition sels_of_calls (cs : list call) : list term :=
-  flat_map (fun cl => match cl with KFromSelect _ s => s | _ => [] end) cs.
+  flat_map (fun cl => match cl with KFromSelect _ s | KSel s => s | _ => [] end) cs.
 Inductive imode := MInsert | MReplace | MInsertOrReplace.
 Definition mode_of_flags (f : bool * bool) : imode :=
   if fst f then (if snd f then MInsertOrReplace else MReplace) else MInsert.
@@ -334,10 +352,13 @@ Definition call_ok (c : cls) (cl : call) : bool :=
   | KColumns a => legal_cols a
   | KInsert a | KReplace a => legal_args a
   | KInsertOrReplace a => legal_args a && cls_eqb c CSQLLite
+  | KInto _ => false          (* a second into() raises *)
   | _ => true
   end.
 Definition nodml_call (cl : call) : bool :=
-  match cl with KSet _ _ | KFromSelect _ _ | KWhere _ | KLimit _ => true | _ => false end.
+  match cl with KSet _ _ | KFromSelect _ _ | KWhere _ | KLimit _ | KFrom _ | KSel _ => true | _ => false end.
+(* what may come in front of into() without changing anything: from_(), where(), limit() *)
+Definition pre_into_call (cl : call) : bool := match cl with KFrom _ | KWhere _ | KLimit _ => true | _ => false end.
 (* call lists of an INSERT with literal rows / of an UPDATE / of a DELETE *)
 Definition insert_call_ok (c : cls) (cl : call) : bool :=
   match cl with
@@ -352,7 +373,7 @@ Definition delete_call_ok (cl : call) : bool := match cl with KWhere _ => true |
 Definition inssel_call_ok (cl : call) : bool :=
   match cl with
   | KColumns a => legal_cols a
-  | KFromSelect _ _ | KWhere _ => true
+  | KFromSelect _ _ | KWhere _ | KFrom _ | KSel _ => true
   | KInsert [] | KReplace [] => true
   | _ => false
   end.
